@@ -193,6 +193,11 @@ class Impl:
                 import re as _re
                 m = _re.search(rb">([0-9a-f]*[a-f][0-9a-f]*)<", b)
                 b2 = b[: m.start(1)] + m.group(1).upper() + b[m.end(1) :] if m else b + b" "
+            elif kind == "swap":
+                # the bytes of ANOTHER manifest of the same chain under this name (a generation rolled back to an
+                # earlier one / two manifests exchanged): a well-formed, once-listed manifest - but not this entry's
+                others = [m_ for m_ in ms if m_ != fn]
+                b2 = open(os.path.join(ad, others[op.get("pos", 0) % len(others)]), "rb").read() if others else b + b"\n"
             else:
                 raise ValueError(kind)
             st = os.stat(fp)
@@ -229,6 +234,23 @@ class Impl:
             if os.path.exists(cp):
                 os.remove(cp)
             return None
+        if k == "legacychain":
+            # the chain kept in the text form of the first releases (ascmhl/chain.txt: "0001 <manifest> c4: <digest>"
+            # per generation), without (or, keep_xml, beside) ascmhl_chain.xml
+            ad = os.path.join(self.P(op["hist"]), "ascmhl")
+            cp = os.path.join(ad, "ascmhl_chain.xml")
+            if os.path.exists(cp):
+                import xml.etree.ElementTree as _ET
+                lines = []
+                for el in _ET.parse(cp).getroot():
+                    if el.tag.endswith("hashlist"):
+                        kids = {c.tag.split("}")[-1]: c.text for c in el}
+                        lines.append("%04d %s c4: %s" % (int(el.attrib.get("sequencenr", "0")), kids.get("path"), kids.get("c4")))
+                with open(os.path.join(ad, "chain.txt"), "w", encoding="utf-8") as f:
+                    f.write("\n".join(lines) + "\n")
+                if not op.get("keep_xml"):
+                    os.remove(cp)
+            return None
         if k == "rmhist":
             shutil.rmtree(os.path.join(self.P(op["hist"]), "ascmhl"), ignore_errors=True)
             return None
@@ -263,9 +285,31 @@ class Impl:
                 os.symlink(".", link)
             at = os.path.join(link, os.path.relpath(at, self.base))
             sfbase = at
+        sf_rel = op.get("sf_rel") if k in ("create", "verify") and op.get("sf") is not None and sp is None else None
+        relto = None
+        if sf_rel:
+            # -sf paths (and the root) given RELATIVE to the working directory: "base" = the folder above the root,
+            # "root" = the root itself, "sub" = the first sub-folder of the root (paths then start with ..)
+            relto = absat
+            if sf_rel == "base":
+                relto = os.path.dirname(absat.rstrip("/")) or "/"
+            elif sf_rel == "sub":
+                subs = sorted(d for d in os.listdir(absat) if os.path.isdir(os.path.join(absat, d)) and d != "ascmhl")
+                if subs:
+                    relto = os.path.join(absat, subs[0])
+            cwd = relto
+            if op.get("sf_rel_root", True):
+                at = os.path.relpath(absat, relto)
         before = self.manifests()
         asc_before = self.asc_snapshot()
         media_before = self.media_snapshot()
+
+        def sfp(s_):
+            full = os.path.join(sfbase, s_) if s_ else sfbase
+            if relto is None:
+                return full
+            # keep the raw spelling (dot segments) where it does not leave the tree
+            return os.path.relpath(os.path.normpath(full), relto)
         if k == "create":
             args = [at]
             for h in op.get("h", []):
@@ -276,7 +320,7 @@ class Impl:
                 args.append("-dr")
             raws = op.get("sf_raw") or op.get("sf", [])
             for s in raws:
-                args += ["-sf", os.path.join(sfbase, s) if s else sfbase]
+                args += ["-sf", sfp(s)]
             for i in op.get("i", []):
                 args += ["-i", i]
             if op.get("ii"):
@@ -288,7 +332,7 @@ class Impl:
         elif k == "verify":
             args = [at]
             if op.get("sf") is not None:
-                args += ["-sf", os.path.join(sfbase, op.get("sf_raw") or op["sf"])]
+                args += ["-sf", sfp(op.get("sf_raw") or op["sf"])]
             for i in op.get("i", []):
                 args += ["-i", i]
             if op.get("ii"):
@@ -317,7 +361,7 @@ class Impl:
         elif k == "info":
             r = rt.run("info", [at], now, cwd)
         elif k == "infosf":
-            if not os.path.exists(os.path.join(absat, op["file"])) or not os.path.isdir(absat):
+            if not all(os.path.exists(os.path.join(absat, f_)) for f_ in (op.get("files") or [op["file"]])) or not os.path.isdir(absat):
                 return None
             if op.get("rel_cwd") and "/" in op["file"]:
                 # a relative FILE path, given from the folder the file is in (not the history root)
@@ -326,6 +370,12 @@ class Impl:
             elif op.get("auto_root"):
                 # no ROOT_PATH: the tool searches upwards for the nearest ascmhl folder
                 r = rt.run("info", ["-sf", os.path.join(sfbase, op["file"])], now, cwd)
+            elif op.get("files"):
+                # -sf given several times in one call
+                a_ = [] if op.get("auto_root") else [at]
+                for f_ in op["files"]:
+                    a_ += ["-sf", os.path.join(sfbase, f_)]
+                r = rt.run("info", a_, now, cwd)
             else:
                 r = rt.run("info", [at, "-sf", os.path.join(sfbase, op["file"])], now, cwd)
         elif k == "verifypl":
@@ -514,6 +564,22 @@ def parse_info(out):
     return res
 
 
+def parse_infosf(out):
+    """[(header path, [(generation number, creation date, rest of the line)])] of `info -sf`: one section per FILE"""
+    res = []
+    for ln in rt._ANSI.sub("", out).split("\n"):
+        m = re.match(r"\s+Generation (\d+) \((.*?)\)\s*(.*)$", ln)
+        if m:
+            if res:
+                res[-1][1].append((int(m.group(1)), m.group(2), m.group(3)))
+            continue
+        if ln.startswith("Info with history at path:") or not ln.strip() or ln.startswith(" "):
+            continue
+        if ln.endswith(":"):
+            res.append((ln[:-1], []))
+    return res
+
+
 # ------------------------------------------------------------------ both sides
 def run_scenario(sc, drv=None, keep=False, impl_only=False):
     """returns dict(ops=[(op, impl_obs, model_obs, diffs)], diffs=[...])"""
@@ -560,7 +626,19 @@ def run_scenario(sc, drv=None, keep=False, impl_only=False):
                     if op.get("impl_only"):
                         res["steps"].append({"op": op, "impl": io, "model": None})
                         continue
-                    mo = drv.command(mop, commit=(k == "create"))
+                    if k == "infosf" and op.get("files"):
+                        # the model answers one file at a time
+                        mos = []
+                        for f_ in op["files"]:
+                            m1 = dict(mop)
+                            m1.pop("files")
+                            m1["file"] = f_
+                            mos.append(drv.command(m1, commit=False))
+                        mo = dict(mos[0])
+                        if all(m_.get("exit") == 0 for m_ in mos):
+                            mo["lines"] = [l for m_ in mos for l in m_.get("lines", [])]
+                    else:
+                        mo = drv.command(mop, commit=(k == "create"))
                     diffs = compare(op, io, mo)
                     if k == "info" and io["exit"] == 0 and io["exc"] is None:
                         lnk = os.path.join(base, "_lnk")
@@ -569,7 +647,7 @@ def run_scenario(sc, drv=None, keep=False, impl_only=False):
                         if ig != mg:
                             diffs.append(f"info generations: impl {ig} model {mg}")
                     if k == "infosf" and io["exit"] == 0 and io["exc"] is None:
-                        il = [(n, rest) for _, n, _, rest in parse_info(io["out"])]
+                        il = [(n, rest) for _, ls_ in parse_infosf(io["out"]) for n, _, rest in ls_]
                         ml = [(l[0], f"{l[1]}: {l[2]} ({l[3]})") for l in mo.get("lines", [])]
                         if il != ml:
                             diffs.append(f"info -sf lines: impl {il} model {ml}")
